@@ -67,3 +67,19 @@ CHECKS["C13"] = {
                    "boundary operands at every width 1..64, on the real wrapint / wrapped_interval classes."),
     "level_note": "Widths bounded as stated; machine-integer *programs* for wrapped_interval_domain are covered by C01/C03 engines when instantiated with that domain.",
 }
+
+CHECKS["C07"] = {
+    "level": "exploration",
+    "technique": "exhaustive enumeration of all small digraphs x entry x successor orders on the real wto<cfg_ref>/wto<call_graph_ref>, checked against from-scratch well-formedness predicates",
+    "design_ref": "DESIGN.md §2 C07",
+    "jobs": [{"bin": "c07_wto", "deadline": {"quick": 200, "thorough": 1500}}],
+    "rule": ("every labelled digraph with n<=3 nodes (all 2^(n*n) edge sets incl. self loops, unreachable nodes) x every product "
+             "of successor-list permutations; n=4: all 65536 graphs x {canonical, reversed, rotated} successor orders, also as call "
+             "graphs of stub functions; thorough adds n=5: all 2^25 graphs x {canonical, reversed}. Each graph is built as a real "
+             "crab cfg and WTO'd from every entry node (default and explicit-entry constructors). "
+             "distinct_nontrivial = distinct (graph, order) cases containing a cycle through >= 2 nodes."),
+    "assumptions": ["well-formedness predicates (each reachable node once, nesting shape, edge rule, nesting() = enclosing heads outermost first) are computed independently in the harness"],
+    "level_text": ("Complete enumeration of every digraph up to the stated node count, every entry and the stated successor orders; "
+                   "each case runs the real WTO construction and nesting table."),
+    "level_note": "Graphs with more than 4 (5) nodes are not covered; the call-graph variant is covered for n<=4.",
+}
